@@ -464,7 +464,39 @@ def job_partition_real_quantizers(period, Wb, npol):
         recs.append(cex('C02:partition:real-quantisers:second', f'period {period}: a second recording of the same stream on the same backend differs from the first', dict(fn='partition_real', period=period, Wb=Wb, npol=npol, nsb=1), name=f"C02:partition-real-quantisers:{(period, Wb, npol)}:second-recording"))
     r, _ = core.check([lift(ref[0][0]) != lift(ref[1][0])])
     recs.append(q(f"C02:partition-real-quantisers:{(period, Wb, npol)}:twin", r, expect='sat'))
+    # each stored sample is a function of its OWN polarisation's stream (its requantiser holds that stream's statistics):
+    # no term of polarisation p may mention a sample of the other polarisation
+    if npol == 2:
+        foreign = []
+        for bi, blk in enumerate(ref[:2]):
+            ncol = len(blk) // (P // 2)
+            for i, e in enumerate(blk):
+                pol = ((i % ncol) // 2) % npol
+                if pols_in(lift(e)) - {pol}:
+                    foreign.append((bi, i, pol))
+        name = f"C02:partition-real-quantisers:{(period, Wb, npol)}:own-stream"
+        r, _ = core.check([RV(len(foreign)) != 0])
+        recs.append(q(name, r, detail=str(foreign[:3])))
+        if foreign:
+            recs.append(cex('C02:own-stream', f'period {period}: the stored samples of one polarisation depend on the other polarisation\'s stream (first: block {foreign[0][0]}, byte {foreign[0][1]})',
+                            dict(fn='partition_real', period=period, Wb=Wb, npol=npol, nsb=1, own_stream=True), name=name))
     return recs
+
+
+def pols_in(term):
+    """polarisation indices of the antenna samples S(ant, pol, k) a term mentions (syntactic dependence)"""
+    seen, out, stack = set(), set(), [term]
+    while stack:
+        t = stack.pop()
+        if t.get_id() in seen:
+            continue
+        seen.add(t.get_id())
+        if z3.is_app(t):
+            if t.decl().name() == SF.name() and t.num_args() == 3:
+                c = core.const_value(t.arg(1))
+                out.add(int(c) if c is not None else -1)
+            stack.extend(t.children())
+    return out
 
 
 def replay_partition_real(p):
@@ -495,6 +527,30 @@ def replay_partition_real(p):
                 pos = end + be.block_size
             outs[nsb] = b''.join(blocks)
         bad = [n for n, v in outs.items() if v != outs[1]]
+        if p.get('own_stream') and npol == 2:
+            # polarisations of very different level: a backend given ONE requantiser to clone per stream must record what
+            # a backend given separately constructed requantisers records
+            def rec(name, as_list):
+                src = an.Antenna(sample_rate=1024.0, num_pols=2, seed=7)
+                src.x.add_noise(0, 1)
+                src.y.add_noise(40.0, 9.0)
+                mkq = lambda: qz.ComplexQuantizer(num_bits=8, stats_calc_period=period, stats_calc_num_samples=50)
+                mkd = lambda: qz.RealQuantizer(num_bits=8, stats_calc_period=period, stats_calc_num_samples=50)
+                be = bk.RawVoltageBackend(src, [[mkd(), mkd()]] if as_list else mkd(), pf.PolyphaseFilterbank(num_taps=2, num_branches=8),
+                                          [[mkq(), mkq()]] if as_list else mkq(), start_chan=0, num_chans=4, block_size=2 * Wb * 4 * 2 * 2, blocks_per_file=2, num_subblocks=1)
+                be.record(os.path.join(d, name), num_blocks=2, length_mode='num_blocks', header_dict={}, verbose=False, load_template=False)
+                raw = open(os.path.join(d, f'{name}.0000.raw'), 'rb').read()
+                out, pos = [], 0
+                while pos < len(raw):
+                    end = raw.index(b'END' + b' ' * 77, pos) + 80
+                    out.append(raw[end:end + be.block_size])
+                    pos = end + be.block_size
+                return b''.join(out)
+            a, b = rec('tmpl', False), rec('list', True)
+            if a != b:
+                nd = sum(x != y for x, y in zip(a, b))
+                shutil.rmtree(d, ignore_errors=True)
+                return True, f"period {period}: a backend given one requantiser to copy per stream records {nd} of {len(a)} bytes differently from one given a separate requantiser per stream (streams of different level)"
     finally:
         shutil.rmtree(d, ignore_errors=True)
     return bool(bad), f"period {period}: num_subblocks {bad} record other bytes than num_subblocks=1 (second recording on the backend)" if bad else 'all partitions record the same bytes'
